@@ -13,7 +13,7 @@ from ..envdrive import gen_case_strategy, has_proxy, load_shipped, shipped_files
 from ..harness import VERIF, CaseResult, Ctx
 
 ID = "C03"
-WORKERS = {"quick": 4, "thorough": 5}
+WORKERS = {"quick": 8, "thorough": 8}
 SHRINK_BUDGET = 10
 RULE = (
     "case = (scenario with stochastic scripted agents: shipped data_manipulation / UC7 / nmap red-agent files and generated "
@@ -166,7 +166,7 @@ def shipped_case(draw, paths):
     p = draw(st.sampled_from(paths))
     s = draw(st.integers(0, 1000))
     big = "uc7" in p
-    slow = "nmap_network_service_recon" in p or "nmap_port_scan" in p  # a /24 x ports scan every step: ~1.5 s per step
+    slow = "nmap_" in p  # a /24 (x ports) scan every step: ~1-1.5 s per step
     acts = draw(st.lists(st.tuples(st.just("step"), st.integers(0, 10 ** 6)).map(list), min_size=2 if slow else 3,
                          max_size=3 if slow else (8 if big else 20)))
     ops = [["reset", s]] + acts + [["reset", s]] + acts
@@ -185,10 +185,10 @@ def gen_case(draw):
 
 
 @st.composite
-def uc7_long_case(draw):
+def uc7_long_case(draw, which: int = 0):
     """The threat actors need ~30 quiet steps to get through reconnaissance: blue mostly idles."""
-    p = draw(st.sampled_from(["src/primaite/config/_package_data/uc7_config.yaml",
-                              "src/primaite/config/_package_data/uc7_config_tap003.yaml"]))
+    p = ["src/primaite/config/_package_data/uc7_config.yaml",
+         "src/primaite/config/_package_data/uc7_config_tap003.yaml"][which % 2]
     s = draw(st.integers(0, 1000))
     k = draw(st.integers(32, 40))
     acts = [["step", 0] for _ in range(k)]
@@ -235,11 +235,12 @@ def worker(ctx: Ctx):
     paths = [p for p in STOCHASTIC_SHIPPED if os.path.exists(os.path.join("/repo", p))]
     if q:
         paths = [p for p in paths if "uc7_config_tap003" not in p and "nmap_network_service_recon" not in p]
-    n_ship, n_gen = (4, 3) if q else (60, 60)
+    n_ship, n_gen = (2, 2) if q else (40, 40)
     cases = collect(shipped_case(paths), n_ship, ctx.wseed * 10) + collect(gen_case(), n_gen, ctx.wseed * 10 + 1)
-    cases += collect(folder_case(rot=ctx.idx + ctx.seed), 1 if q else 16, ctx.wseed * 10 + 2)
-    if ctx.idx == 0 or not q:
-        cases += collect(uc7_long_case(), 1 if q else 6, ctx.wseed * 10 + 3)
+    if not q or ctx.idx % 2 == 0:
+        cases += collect(folder_case(rot=ctx.idx // 2 + ctx.seed), 1 if q else 10, ctx.wseed * 10 + 2)
+    if ctx.idx < 2 or not q:  # quick: worker 0 runs the TAP001 scenario, worker 1 the TAP003 one
+        cases += collect(uc7_long_case(which=ctx.idx), 1 if q else 3, ctx.wseed * 10 + 3)
     chunk = 12
     for i in range(0, len(cases), chunk):
         part = cases[i:i + chunk]
